@@ -345,6 +345,8 @@ def rejected_api_check(which):
     for r in df.generator([[]]):
         if getattr(r, 'set_type', None) == cls.set_type and r.n_items and which < 2:
             return 4
+        if isinstance(getattr(r, 'set_type', None), str) and r.n_items == 0 and len(r._make_body_bytes()) != 0:
+            return 5                       # the empty set left by the rejected call would be written
     return 0
 
 
@@ -454,3 +456,50 @@ def kf_isolation_shared(n: int, order: int) -> int:
     post: _ == 0
     """
     return isolation_check(n, n, order, False)
+
+
+# --------------------------------------------------------------- record order after a rejected call (O20.1, order)
+
+def rejected_order_check(first_use, named):
+    """A rejected add_zone followed by valid calls: the sets are emitted in the same order as for the history without
+    the rejected call."""
+    def build(with_rejected):
+        df, (lf,) = new_file(1)
+        add_origin(lf, 'O')
+        sn = 'ZS' if named else None
+        if not first_use:
+            lf.add_zone('Z0', set_name=sn)
+        if with_rejected:
+            try:
+                lf.add_zone('ZBAD', domain='NOT-A-DOMAIN', set_name=sn)
+            except REJECT:
+                pass
+        c = lf.add_channel('C')
+        lf.add_frame('F', channels=(c,))
+        lf.add_zone('Z1', set_name=sn)
+        return [(r.set_type, r.set_name, [it.name for it in r.get_all_eflr_items()]) for r in df.generator([[]])
+                if isinstance(getattr(r, 'set_type', None), str) and r.n_items > 0]
+    return 0 if build(True) == build(False) else 1
+
+
+def ob_rejected_order(named: bool) -> int:
+    """
+    The set the rejected call addressed already exists (known finding F21 - the rejected call is the FIRST use of its
+    set - is decided by kf_rejected_order).
+    post: _ == 0
+    """
+    return rejected_order_check(False, named)
+
+
+def reach_rejected_order(named: bool) -> int:
+    """
+    post: _ != 0
+    """
+    return rejected_order_check(False, named)
+
+
+def kf_rejected_order(named: bool) -> int:
+    """
+    post: _ == 0
+    """
+    return rejected_order_check(True, named)
